@@ -55,18 +55,23 @@ def check(ctx):
     y = ylds[0]
     before = [n for n in sets if y in cfg.reach([n]) and not any(isinstance(a, ast.Try) and n.ast in ast.walk(ast.Module(body=a.finalbody, type_ignores=[])) for a in ancestors(n.ast))]
     after = [n for n in sets if n not in before]
+    # the capture dict: the local that receives `<d>[key] = self._capture_for_swap(...)`
+    capd = {m.ast.targets[0].value.id for m in cfg.nodes if m.kind == "stmt" and isinstance(m.ast, ast.Assign) and isinstance(m.ast.targets[0], ast.Subscript) and isinstance(m.ast.targets[0].value, ast.Name) and any(call_name(cc) == "self._capture_for_swap" for cc in calls_in(m.ast))}
+    if len(capd) != 1:
+        raise AnalysisError(f"{st}: expected one dict of captured states, found {sorted(capd)}")
+    capd = next(iter(capd))
     for n in before:
         c = next(c for c in calls_in(n.ast) if call_name(c) == "self._set_item")
         k = unparse(c.args[0])
         tl = const_value(kwarg(c, "thread_local")) is True
         ctx.ob("R1", st, f"`{short(c)}` writes the thread-local layer only", tl, key="swap|set-not-thread-local", where=loc(c))
-        caps = [m for m in cfg.nodes if m.kind == "stmt" and isinstance(m.ast, ast.Assign) and isinstance(m.ast.targets[0], ast.Subscript) and unparse(m.ast.targets[0]) == f"old[{k}]" and any(call_name(cc) == "self._capture_for_swap" for cc in calls_in(m.ast))]
+        caps = [m for m in cfg.nodes if m.kind == "stmt" and isinstance(m.ast, ast.Assign) and isinstance(m.ast.targets[0], ast.Subscript) and unparse(m.ast.targets[0]) == f"{capd}[{k}]" and any(call_name(cc) == "self._capture_for_swap" for cc in calls_in(m.ast))]
         loop = next((a for a in ancestors(n.ast) if isinstance(a, ast.For)), None)
         same_iter = [m for m in caps if loop is not None and lexically_inside(m.ast, loop)]
         ok = bool(same_iter) and all(m.ast.lineno < n.ast.lineno for m in same_iter) and cfg.dominated(n, lambda mm: mm in same_iter)
         ctx.ob("R1", st, f"`{short(c)}`: the previous state of the key is captured first, in the same iteration", ok, key="swap|set-before-capture", where=loc(c))
     # restore in finally
-    restore_loops = [n for n in cfg.nodes if n.kind == "for" and unparse(n.ast.iter) == "old.items()"]
+    restore_loops = [n for n in cfg.nodes if n.kind == "for" and unparse(n.ast.iter) in (f"{capd}.items()", capd, f"list({capd}.items())")]
     ok = bool(restore_loops)
     path = None
     if ok:
